@@ -290,6 +290,12 @@ func (db *DB) garbageCollectFile(key uint16, size int64) error {
 		}
 	}
 
+	// A time-range delete captures pointers (with their file offsets) before it
+	// rewrites them; compacting the file in between would leave the rewritten pointers
+	// with offsets into the old layout. Deletes and file compaction exclude each other.
+	db.idx.deleteLock.Lock()
+	defer db.idx.deleteLock.Unlock()
+
 	db.fc.readers.RLock()
 	defer db.fc.readers.RUnlock()
 	rs, ok := db.fc.readers.files[key]
